@@ -115,6 +115,7 @@ def check_lstsq_case(case, out):
     Vk = V[:, keep]
     x0 = np.array([(-1.0) ** j * (1.0 + 0.5 * j) for j in range(n)])
     rhss = [A @ x0, np.array([1.0 + 0.25 * i * (-1) ** i for i in range(m)]), np.eye(m)[:, m - 1] * max(s[0], 1e-300)]
+    xs = []
     for ib, b in enumerate(rhss):
         out["evaluations"] += 1
         kwargs = {}
@@ -143,6 +144,8 @@ def check_lstsq_case(case, out):
                 ref = np.linalg.pinv(A, rcond=rc) @ b
                 if np.linalg.norm(ref - x) > 1e-8 * (np.linalg.norm(ref) + np.linalg.norm(b) / smin + 1e-300) * (nA / smin):
                     what = f"differs from numpy.linalg.pinv(A, rcond={rc}) @ b: {x!r} vs {ref!r}"
+        if what is None:
+            xs.append(x)
         if len(keep) and len(keep) < k:
             out["truncated"] += 1
         out["distinct"].add((m, n, pname, rcond, cutoff, ib))
@@ -150,6 +153,45 @@ def check_lstsq_case(case, out):
             out["issues"].append({"kind": "violation", "property": "C16", "finding": None, "what": "SVD.lstsq: " + what, "config": {},
                                   "program": [f"A = U diag({s}) V^T, shape {m}x{n} ({pname})", f"rcond={rcond}, sing_val_cutoff={cutoff}",
                                               f"b = rhs #{ib}"], "case": {"kind": "lstsq", "id": [m, n, pname, rcond, cutoff, ib]}})
+
+
+def check_lstsq_blocks(case, out):
+    """several right-hand sides given as ONE (m, k) block: column j of the answer is the answer for column j (k = 1, 3, and the
+    number of singular values kept, which is where a per-column scaling is easiest to confuse with a per-row one)"""
+    import numpy as np
+    from xdeps.optimize.matrixutils import SVD
+    m, n, U, V, pname, s, rcond, cutoff = case
+    k = min(m, n)
+    S = np.zeros((m, n))
+    for i in range(k):
+        S[i, i] = s[i]
+    A = U @ S @ V.T
+    keep = kept_indices(s, rcond, cutoff)
+    if keep is None:
+        return
+    x0 = np.array([(-1.0) ** j * (1.0 + 0.5 * j) for j in range(n)])
+    rhss = [A @ x0, np.array([1.0 + 0.25 * i * (-1) ** i for i in range(m)]), np.eye(m)[:, m - 1] * max(s[0], 1e-300)]
+    svd = SVD(A) if rcond is None else SVD(A, rcond=rcond)
+    kwargs = {} if cutoff is None else {"sing_val_cutoff": cutoff}
+    cols = [svd.lstsq(b, **kwargs) for b in rhss]
+    for width in sorted({1, 3, max(1, len(keep))}):
+        out["evaluations"] += 1
+        B = np.column_stack([rhss[j % 3] for j in range(width)])
+        want = np.column_stack([cols[j % 3] for j in range(width)])
+        what = None
+        try:
+            got = svd.lstsq(B, **kwargs)
+            if np.shape(got) != want.shape:
+                what = f"a block of {width} right-hand sides (shape {B.shape}) gives shape {np.shape(got)}, expected {want.shape}"
+            elif not np.allclose(got, want, rtol=1e-10, atol=1e-10 * (np.abs(want).max() if want.size else 0.0) + 1e-300):
+                what = f"a block of {width} right-hand sides does not give, column by column, the answers for the single right-hand sides"
+        except Exception as e:  # noqa
+            what = f"a block of {width} right-hand sides (shape {B.shape}) raises {type(e).__name__}: {e}"
+        if what and len(out["issues"]) < 20:
+            out["issues"].append({"kind": "violation", "property": "C16", "finding": None, "what": "SVD.lstsq: " + what, "config": {},
+                                  "program": [f"A = U diag({s}) V^T, shape {m}x{n} ({pname})", f"rcond={rcond}, sing_val_cutoff={cutoff}",
+                                              f"B = {width} right-hand sides as columns"], "case": {"kind": "lstsq", "id": [m, n, pname, rcond, cutoff, 0]}})
+            return
 
 
 def reuse_cases():
@@ -250,6 +292,8 @@ def linear_cases(tier):
                 for tw in (None, (3.0, 0.25, 2.0, 0.5, 1.5)[:nt]):
                     for br in (False, True, 2):
                         yield {"fam": fam, "x0": x0, "kw": kw, "tw": tw, "tol": 1e-8, "limits": [(-50.0, 50.0)] * nk, "broyden": br, "nsm": 20}
+                    # limits written as whole numbers (Python ints), odd so that limit / weight is not whole
+                    yield {"fam": fam, "x0": x0, "kw": kw, "tw": tw, "tol": 1e-8, "limits": [(-51, 53)] * nk, "broyden": False, "nsm": 20}
                     ks = F["ksol"]
                     # one knob is disabled and already holds its solution value: the remaining problem is consistent, the step must land
                     if 2 <= nk <= nt:
@@ -303,7 +347,8 @@ def check_linear(spec, out):
                 what = "solve() returned outside the tolerances"
         except Exception as e:  # noqa
             what = f"solve(broyden={spec['broyden']}) failed on a consistent well-conditioned linear problem: {type(e).__name__}: {e}"
-    out["distinct"].add(("linear", spec["fam"], tuple(spec["x0"]), spec["kw"] is None, spec["tw"] is None, spec["broyden"], spec.get("dv", ())))
+    out["distinct"].add(("linear", spec["fam"], tuple(spec["x0"]), spec["kw"] is None, spec["tw"] is None, spec["broyden"], spec.get("dv", ()),
+                         repr(spec["limits"][0])))
     if what and len(out["issues"]) < 20:
         out["issues"].append({"kind": "violation", "property": "C16", "finding": None, "what": what, "config": {},
                               "program": [f"problem: {O.spec_str(spec)}", "opt.step(1)", f"opt.solve(broyden={spec['broyden']})"],
@@ -553,7 +598,8 @@ def view_cases():
         nk, nt = F["nk"], F["nt"]
         for kw in (None, (2.0, 0.5, 4.0)[:nk]):
             for tw in (None, (3.0, 0.25, 2.0)[:nt]):
-                for lims in ([(-1.0, 2.0), (-1.5, 1.0), (-2.0, 4.0)][:nk], [(-3.0, 3.0)] * nk):
+                # (limits also written as whole numbers, i.e. Python ints: a legal way of giving them)
+                for lims in ([(-1.0, 2.0), (-1.5, 1.0), (-2.0, 4.0)][:nk], [(-3.0, 3.0)] * nk, [(-1, 2), (-3, 1), (-2, 5)][:nk]):
                     for rs in (None, (0, 1), (-1, 1), (2, 5)):
                         for scalar in (False, True):
                             pts = [[0.3, -0.4, 0.7][:nk], [1.1, 0.6, -1.2][:nk],
@@ -650,6 +696,7 @@ def job(chunk):
             break       # the run is already a failure: no need to sit through every further case (some failures are time-outs)
         if kind == "lstsq":
             check_lstsq_case(payload, out)
+            check_lstsq_blocks(payload, out)
         elif kind == "smallint":
             check_small_int(payload, out)
         elif kind == "linear":
@@ -748,4 +795,5 @@ def replay(issue):
         for c in lstsq_cases("thorough"):
             if [c[0], c[1], c[4], c[6], c[7]] == want[:5]:
                 check_lstsq_case(c, out)
+                check_lstsq_blocks(c, out)
     return {"still_fails": bool(out["issues"]), "what": out["issues"][0]["what"] if out["issues"] else "ok"}
